@@ -71,10 +71,10 @@ def bounds(tier):
         "(normally / by exception), entered again (with / deco) under every stack Y of depth <= 2, then probe, "
         "subst, exit, probe; T0 is also a symbol of the un-merged alphabet (enabled while inactive; a fresh tape "
         "takes its place while T0 is active)" % (2 if thorough else 1),
-        "late_registration_alphabet": list(LATE_ALPHABET),
+        "late_registration_alphabet": list(late_alphabet(tier)),
         "late_registration_length": 6 if thorough else 5,
         "late_registration": "D = DispatchedInterpretation created per history without rules; all well-nested sequences "
-        "of that length over with/deco(lazy, A, D), exit, raise(k), probe and reg (= D's first rule is registered "
+        "of that length over with/deco of that alphabet, exit, raise(k), probe and reg (= D's first rule is registered "
         "here: before entry, while active, after exit); un-merged, every step compared with the list",
         "overflow_chain_bases": [b or "(default eager)" for b in _CHAIN_BASES],
         "overflow_chain_patterns": list(_CHAIN_PATTERNS),
@@ -1171,10 +1171,14 @@ def reentry_histories(tier):
 # ---------------------------------------------------------------------------------------------------------------
 # phase E / a rule-less DispatchedInterpretation whose first rule is registered before / during / after its block
 
-LATE_ALPHABET = ("lazy", "A", "D")
+LATE_ALPHABET = ("lazy", "A", "D")  # thorough; quick uses ("lazy", "D")
 
 
-def late_sequences(length, prefix):
+def late_alphabet(tier):
+    return LATE_ALPHABET if tier == "thorough" else ("lazy", "D")
+
+
+def late_sequences(length, prefix, symbols=LATE_ALPHABET):
     """All well-nested sequences of exactly ``length`` events over LATE_ALPHABET (with / deco / exit / raise k /
     probe) plus the event ("reg",) at every position."""
 
@@ -1187,7 +1191,7 @@ def late_sequences(length, prefix):
         if len(seq) == length:
             yield seq
             return
-        for e in ref.menu(len(stack), LATE_ALPHABET, length, ()) + [("reg",)]:
+        for e in ref.menu(len(stack), symbols, length, ()) + [("reg",)]:
             yield from rec(seq + (e,), step(stack, e))
 
     st0 = ()
@@ -1215,7 +1219,7 @@ def _work(job):
             stats.table = set(stats.table)
         elif kind == "late":
             _, _, _, length, prefix = job
-            for h in late_sequences(length, prefix):
+            for h in late_sequences(length, prefix, late_alphabet(tier)):
                 x = run(h)
                 stats.executions += 1
                 rep.add(outcome(x, h, "E"))
@@ -1384,7 +1388,7 @@ def explore(tier, seed, report):
         # phase E
         LE = b["late_registration_length"]
         e_exec = 0
-        for rep, pay in _map(pool, [("late", tier, seed, LE, p) for p in late_sequences(2, ())]):
+        for rep, pay in _map(pool, [("late", tier, seed, LE, p) for p in late_sequences(2, (), late_alphabet(tier))]):
             report.merge(rep)
             e_exec += pay["executions"]
     finally:
@@ -1418,7 +1422,7 @@ def explore(tier, seed, report):
             },
             "overflow_chains": {"histories": c.executions, "end_states": len(c.states), "max_depth": c.max_depth},
             "tape_reentry": {"histories": d.executions},
-            "late_registration": {"alphabet": list(LATE_ALPHABET) + ["reg"], "length": LE, "sequences_executed": e_exec},
+            "late_registration": {"alphabet": list(late_alphabet(tier)) + ["reg"], "length": LE, "sequences_executed": e_exec},
         }
     )
 
